@@ -67,6 +67,8 @@ def main():
         ent = {"key": key, "class": cls, "what": what, "witness": e0["model"], "snaps": e0.get("snaps"), "failing_paths": len(pcs), "region": region}
         if e0.get("post"):
             ent["post"] = True
+        if key["Harness"] == "C06":
+            ent["msgs"] = sorted(set(e["msg"] for e in es))
         if k in existing:
             existing[k].update(ent)
         else:
